@@ -33,7 +33,7 @@ Proof.
   destruct op; constructor; unfold nr, nw; st_cbn; cbn [is_q3 is_idle]; intros; try discriminate; lia.
 Qed.
 
-Lemma einv_pstep : forall cap s, einv s -> einv (pstep cap s).
+Lemma einv_pstep : forall cap s, einv s -> einv (pstep false cap s).
 Proof.
   intros cap s [H1 H2 H3]. dst s. unfold pstep, nr, nw in *. st_cbn.
   pc_cases xppc; constructor; unfold nr, nw; st_cbn; auto.
@@ -51,7 +51,7 @@ Qed.
 Lemma swapped_not_slice : forall p, swapped p = true -> slice_pc p = false.
 Proof. intros p. destruct_pc p; cbn; congruence. Qed.
 
-Lemma einv_cstep : forall cap s, 2 <= cap -> cinv s = true -> dinv cap s -> einv s -> einv (cstep cap s).
+Lemma einv_cstep : forall cap s, 2 <= cap -> cinv s = true -> dinv cap s -> einv s -> einv (cstep false cap s).
 Proof.
   intros cap s Hc HC HD [H1 H2 H3]. dst s. unfold cstep, nr, nw in *. st_cbn.
   pc_cases xcpc; constructor; unfold nr, nw; st_cbn; cbn [is_q3 is_idle] in *; auto; try discriminate.
@@ -75,12 +75,12 @@ Record good (cap : N) (s : st) : Prop := mkG {
 Lemma good_init : forall cap, 2 <= cap -> good cap (init cap).
 Proof. intros. constructor; [apply cinv_init|apply dinv_init; auto|apply einv_init]. Qed.
 
-Lemma good_pstep : forall cap s, 2 <= cap -> good cap s -> good cap (pstep cap s).
+Lemma good_pstep : forall cap s, 2 <= cap -> good cap s -> good cap (pstep false cap s).
 Proof.
   intros cap s Hc [C D E]. constructor;
   [apply cinv_pstep|apply dinv_pstep|apply einv_pstep]; auto.
 Qed.
-Lemma good_cstep : forall cap s, 2 <= cap -> good cap s -> good cap (cstep cap s).
+Lemma good_cstep : forall cap s, 2 <= cap -> good cap s -> good cap (cstep false cap s).
 Proof.
   intros cap s Hc [C D E]. constructor;
   [apply cinv_cstep|apply dinv_cstep|apply einv_cstep]; auto.
@@ -96,7 +96,7 @@ Proof.
   [apply cinv_cbegin|apply dinv_cbegin|apply einv_cbegin]; auto.
 Qed.
 
-Lemma good_sys_step : forall cap y t, 2 <= cap -> good cap (y_st y) -> good cap (y_st (sys_step cap y t)).
+Lemma good_sys_step : forall cap y t, 2 <= cap -> good cap (y_st y) -> good cap (y_st (sys_step false cap y t)).
 Proof.
   intros cap [s pp cp] t Hc G. unfold sys_step. cbn [y_st y_pp y_cp]. destruct t.
   - destruct (ppc s) eqn:Ep; try (cbn [y_st]; apply good_pstep; auto).
@@ -106,13 +106,13 @@ Proof.
 Qed.
 
 Lemma good_fold : forall cap sched y, 2 <= cap -> good cap (y_st y) ->
-  good cap (y_st (fold_left (sys_step cap) sched y)).
+  good cap (y_st (fold_left (sys_step false cap) sched y)).
 Proof.
   intros cap sched. induction sched as [|t r IH]; intros y Hc G; cbn [fold_left]; auto.
   apply IH; auto. apply good_sys_step; auto.
 Qed.
 
-Theorem good_exec : forall cap sched pp cp, 2 <= cap -> good cap (y_st (exec cap sched pp cp)).
+Theorem good_exec : forall cap sched pp cp, 2 <= cap -> good cap (y_st (exec false cap sched pp cp)).
 Proof. intros. unfold exec. apply good_fold; auto. cbn. apply good_init; auto. Qed.
 
 (* ---------------------------------------------------------------------------------------- *)
@@ -131,11 +131,11 @@ Proof. induction n; intros [|x l]; cbn; auto. Qed.
 (* received is always a prefix of pushed; when the receiver has been told Err(ClosedError) -- the
    sender closed and the queue is drained -- it has received everything that was ever pushed *)
 Theorem fifo_exactly_once : forall cap sched pp cp, 2 <= cap ->
-  let s := y_st (exec cap sched pp cp) in
+  let s := y_st (exec false cap sched pp cp) in
   prefix_of (received s) (pushed s) /\
   (cpc s = Idle -> ccode s = 4 -> received s = pushed s).
 Proof.
-  intros cap sched pp cp Hc s. destruct (good_exec cap sched pp cp Hc) as [C D E]. fold s in C, D, E.
+  intros cap sched pp cp Hc s. destruct (good_exec false cap sched pp cp Hc) as [C D E]. fold s in C, D, E.
   split.
   - rewrite (d_recv _ _ D). apply firstn_prefix.
   - intros Hi H4. destruct (e_closed _ E) as [_ Hn]; auto. { rewrite Hi. reflexivity. }
@@ -146,14 +146,14 @@ Qed.
    to read, the index lies in the published window [head, tail) and the slot holds the value the
    producer wrote there before it published the tail *)
 Theorem no_unwritten_slot : forall cap sched pp cp, 2 <= cap ->
-  let s := y_st (exec cap sched pp cp) in
+  let s := y_st (exec false cap sched pp cp) in
   bad s = false /\
   (cpc s = Work ->
      hpub s <= nr s /\ nr s < ctc s /\ ctc s <= npub s /\ npub s <= nw s /\
      head s = hpub s mod cap /\ tail s = npub s mod cap /\ ch s = nr s mod cap /\
      nth (N.to_nat (ch s)) (slots s) None = Some (nth (N.to_nat (nr s)) (pushed s) 0)).
 Proof.
-  intros cap sched pp cp Hc s. destruct (good_exec cap sched pp cp Hc) as [C D E]. fold s in C, D, E.
+  intros cap sched pp cp Hc s. destruct (good_exec false cap sched pp cp Hc) as [C D E]. fold s in C, D, E.
   split; [apply (d_bad _ _ D)|]. intros Hw.
   pose proof (d_ord _ _ D) as O. pose proof (d_cwork _ _ D) as W. rewrite Hw in W. cbn in W.
   repeat split; try lia; try apply D.
